@@ -305,4 +305,24 @@ PROPS = {
                        "nsec3_hash(..).unwrap()), loops: async code over caches and crypto, out of reach. nsec_in_range / "
                        "nsec3_in_range compare generic names/hashes with operators and could not be extracted mechanically.",
     },
+    "C09": {
+        "level": "other",
+        "units": ["versioned"],
+        "kani": [
+            {"group": "repo_zonetree", "name": "c09_versioned_get_matches_spec_bounded", "kind": "bounded", "tier": "quick",
+             "bound": "tables of at most 4 (version, Option<u8>) entries, arbitrary versions and values, every reader version",
+             "what": "Versioned::get (iterator adapters, outside Verus) == the abstract lookup spec_get used by the Verus contracts"},
+            {"group": "repo_zonetree", "name": "c09_version_next_is_newer", "kind": "complete", "tier": "quick",
+             "what": "Version::next() is strictly newer than the version it comes from (RFC 1982), all 2^32 versions, on the compiled "
+                     "derive(PartialOrd) of Version"},
+        ],
+        "explanation": "the per-node mechanism behind 'readers see one committed version': Versioned::{update, remove, rollback} "
+                       "(real text) are proved to change the entry table exactly as specified, and over those contracts: any writer "
+                       "operation at a version w that is not <= v leaves the value seen by a reader at v unchanged (snapshot "
+                       "stability, unbounded, for any table), and rollback undoes the writer's update. Versioned::get is tied to the "
+                       "abstract lookup by a bounded Kani harness (in-crate, via the cfg(kani) hook).",
+        "not_covered": "Real-thread interleavings, the writer mutex, publication of a new version to readers (ZoneVersions, arc-swap, "
+                       "RwLock), atomicity of commit across all nodes, walking a zone: Kani has no threads, Verus has no model of "
+                       "parking_lot/arc-swap/Arc; this claim is about one Versioned<T> cell only.",
+    },
 }
